@@ -13,6 +13,7 @@ import (
 	"k8s.io/apimachinery/pkg/runtime"
 	"k8s.io/apimachinery/pkg/types"
 
+	"verif/harness/refspec"
 	"verif/harness/simapi"
 )
 
@@ -34,6 +35,10 @@ type Cfg struct {
 	OddNames         bool // non-canonical pod names (S-01, S-x)
 	NoUserEdits      bool
 	SlotHeavy        bool
+	// Gentle: healthy initial population (exactly the desired pods, Ready, owned) and a co-operative
+	// environment, so that rollouts and ordered scale-in actually progress; edits favour templates,
+	// partitions, slots and replicas.
+	Gentle bool
 }
 
 func DefaultCfg() Cfg {
@@ -259,7 +264,28 @@ func (r *Runner) seedPods(set string, o SetOpts) {
 	revs := r.revisionsOf(set)
 	labels := s.Spec.Selector.MatchLabels
 	density := 0.25 + 0.6*r.Rng.Float64()
+	desired := refspec.DesiredSet(int(*s.Spec.Replicas), SlotsOf(s))
 	for ord := 0; ord <= r.Cfg.MaxOrd; ord++ {
+		if r.Cfg.Gentle {
+			if !desired[ord] && !r.chance(0.15) {
+				continue
+			}
+			po := PodOpts{Name: fmt.Sprintf("%s-%d", set, ord), Labels: labels, SetName: set, Ordinal: ord, Claims: o.Claims, Phase: corev1.PodRunning, Scheduled: true, Ready: true, Owner: SetOwnerRef(s)}
+			po.PodNameLbl = po.Name
+			if len(revs) > 0 {
+				ri := revs[r.Rng.Intn(len(revs))]
+				if r.chance(0.6) {
+					ri = revs[len(revs)-1]
+				}
+				po.Revision, po.TemplateV = ri.Name, ri.V
+			}
+			w.Srv.Seed(simapi.Pods, NewPod(po))
+			r.logf("   pod %s healthy rev=%s", po.Name, po.Revision)
+			for _, c := range po.Claims {
+				w.Srv.Seed(simapi.PVCs, &corev1.PersistentVolumeClaim{ObjectMeta: metav1.ObjectMeta{Namespace: NS, Name: fmt.Sprintf("%s-%s-%d", c, set, ord)}})
+			}
+			continue
+		}
 		if !r.chance(density) {
 			continue
 		}
@@ -387,7 +413,38 @@ func (r *Runner) seedStrayRevisions(set string) {
 }
 
 // Step performs one random hostile step.
+func (r *Runner) gentleStep() {
+	w := r.W
+	switch x := r.Rng.Intn(100); {
+	case x < 40:
+		r.Reconcile(r.pick(r.Sets))
+	case x < 60:
+		w.DeliverAll()
+		r.logf("deliver all")
+	case x < 85:
+		for _, p := range w.PodNames() {
+			if r.chance(0.8) {
+				w.Kubelet(p, "settle")
+			}
+		}
+		r.logf("kubelet settles pods")
+	case x < 88:
+		if p := r.pick(w.PodNames()); p != "" {
+			tr := []string{"unready", "fail"}[r.Rng.Intn(2)]
+			if w.Kubelet(p, tr) {
+				r.logf("kubelet %s %s", p, tr)
+			}
+		}
+	default:
+		r.userEdit()
+	}
+}
+
 func (r *Runner) Step() {
+	if r.Cfg.Gentle {
+		r.gentleStep()
+		return
+	}
 	w := r.W
 	x := r.Rng.Intn(100)
 	switch {
@@ -473,6 +530,9 @@ func (r *Runner) userEdit() {
 	x := r.Rng.Intn(100)
 	if r.Cfg.SlotHeavy && x >= 50 {
 		x = 20 + r.Rng.Intn(20)
+	}
+	if r.Cfg.Gentle {
+		x = r.Rng.Intn(72) // replicas, slots, template, partition, strategy
 	}
 	switch {
 	case x < 20:
